@@ -226,6 +226,170 @@ pub fn oracle(c: &ScenCase, obs: &mut Obs) -> Vec<Violation> {
     out
 }
 
+
+// ---------------------------------------------------------------- pinned generator nodes
+//
+// Two kinds of draws that re-sampling cannot reach in any budget:
+//  * `{"fake": ["date", fmt]}` returns today's date: the draw is a function of the clock. Every such node of a
+//    scenario is pinned to one date of a grid (all nodes to the same date, as on a real day).
+//  * string generators (company_name, street_address, ...) have a huge support with rare shapes (a blank
+//    exactly where the scenario's own `substr` cuts, an apostrophe, the longest name). The generator is
+//    sampled on its own - cheaply, hundreds of values per call - and one example per shape is kept; each
+//    example is then pinned into each node of that kind, one node at a time, the rest still random.
+// A pinned value is a value the node can produce (on some day / with some probability), so the pipeline
+// must accept it like any other draw.
+
+fn is_fake_node(v: &Value) -> Option<(&str, &Vec<Value>)> {
+    let o = v.as_object()?;
+    if o.len() != 1 {
+        return None;
+    }
+    let a = o.get("fake")?.as_array()?;
+    let kind = a.first()?.as_str()?;
+    Some((kind, a))
+}
+
+/// paths of all fake nodes, with their spec rendered as text
+fn fake_nodes(v: &Value, path: &mut Vec<String>, out: &mut Vec<(Vec<String>, String)>) {
+    if let Some((_, a)) = is_fake_node(v) {
+        out.push((path.clone(), Value::Array(a.clone()).to_string()));
+        return;
+    }
+    match v {
+        Value::Object(o) => {
+            for (k, x) in o {
+                path.push(k.clone());
+                fake_nodes(x, path, out);
+                path.pop();
+            }
+        }
+        Value::Array(a) => {
+            for (i, x) in a.iter().enumerate() {
+                path.push(i.to_string());
+                fake_nodes(x, path, out);
+                path.pop();
+            }
+        }
+        _ => {}
+    }
+}
+
+fn set_at(v: &mut Value, path: &[String], new: Value) {
+    let mut cur = v;
+    for k in path {
+        cur = match cur {
+            Value::Object(o) => match o.get_mut(k) {
+                Some(x) => x,
+                None => return,
+            },
+            Value::Array(a) => match k.parse::<usize>().ok().and_then(|i| a.get_mut(i)) {
+                Some(x) => x,
+                None => return,
+            },
+            _ => return,
+        };
+    }
+    *cur = new;
+}
+
+/// integer arguments of `substr` operators of a scenario: the places where a generated string is cut
+fn cut_positions(v: &Value, out: &mut std::collections::BTreeSet<usize>) {
+    match v {
+        Value::Object(o) => {
+            if let Some(Value::Array(a)) = o.get("substr") {
+                if let (Some(st), Some(len)) = (
+                    a.get(1).and_then(|x| x.as_u64()),
+                    a.get(2).and_then(|x| x.as_u64()),
+                ) {
+                    out.insert((st + len) as usize);
+                }
+            }
+            for x in o.values() {
+                cut_positions(x, out);
+            }
+        }
+        Value::Array(a) => {
+            for x in a {
+                cut_positions(x, out);
+            }
+        }
+        _ => {}
+    }
+}
+
+/// shapes of a generated string that matter to a line-oriented, length-limited format
+fn string_features(s: &str, cuts: &std::collections::BTreeSet<usize>) -> Vec<String> {
+    let cs: Vec<char> = s.chars().collect();
+    let mut f = vec![format!("len:{}", cs.len().min(120))];
+    for &p in cuts {
+        if p >= 1 && p <= cs.len() && cs[p - 1] == ' ' {
+            f.push(format!("blank-before-cut:{p}"));
+        }
+        if p < cs.len() && cs[p] == ' ' {
+            f.push(format!("blank-after-cut:{p}"));
+        }
+        if p >= 1 && p <= cs.len() && !cs[p - 1].is_ascii_alphanumeric() && cs[p - 1] != ' ' {
+            f.push(format!("punct-before-cut:{p}"));
+        }
+    }
+    for c in cs.iter() {
+        if !c.is_ascii_alphanumeric() && *c != ' ' {
+            f.push(format!("char:{c}"));
+        }
+    }
+    if cs.first() == Some(&' ') {
+        f.push("leading-blank".into());
+    }
+    if cs.last() == Some(&' ') {
+        f.push("trailing-blank".into());
+    }
+    if s.contains("  ") {
+        f.push("double-blank".into());
+    }
+    f
+}
+
+/// sample one generator spec `n` x 200 times on its own; one example per feature
+fn harvest(spec: &str, calls: u32, cuts: &std::collections::BTreeSet<usize>) -> Vec<(String, String)> {
+    let node: Value = json!({"fake": serde_json::from_str::<Value>(spec).unwrap_or(Value::Null)});
+    let mini = json!({"variables": {}, "schema": {"v": (0..200).map(|_| node.clone()).collect::<Vec<_>>()}});
+    let mut seen: std::collections::BTreeMap<String, String> = Default::default();
+    for _ in 0..calls {
+        if let Ok(g) = plugin_generate(&mini) {
+            if let Some(a) = g.get("v").and_then(|x| x.as_array()) {
+                for x in a {
+                    if let Some(s) = x.as_str() {
+                        for f in string_features(s, cuts) {
+                            seen.entry(f).or_insert_with(|| s.to_string());
+                        }
+                    }
+                }
+            }
+        }
+    }
+    seen.into_iter().collect()
+}
+
+fn date_grid(thorough: bool) -> Vec<chrono::NaiveDate> {
+    let mut v = Vec::new();
+    let years: Vec<i32> = if thorough { (2024..=2036).collect() } else { vec![2028] };
+    for y in years {
+        let mut d = chrono::NaiveDate::from_ymd_opt(y, 1, 1).unwrap();
+        while chrono::Datelike::year(&d) == y {
+            v.push(d);
+            d = d.succ_opt().unwrap();
+        }
+    }
+    if !thorough {
+        // a non-leap year's month ends and the last day the two-digit year window (1950-2049) can express;
+        // a clock beyond 2049 is outside what a YYMMDD date can carry and is not a draw to judge
+        for (y, m, dd) in [(2027, 2, 28), (2027, 3, 1), (2027, 12, 31), (2029, 1, 1), (2049, 12, 31), (2030, 6, 30)] {
+            v.push(chrono::NaiveDate::from_ymd_opt(y, m, dd).unwrap());
+        }
+    }
+    v
+}
+
 pub fn run(ctx: &Ctx) {
     let files = scenario_files();
     let draws = ctx.n(300, 5000);
@@ -319,6 +483,120 @@ pub fn run(ctx: &Ctx) {
                     "scenario file is not valid JSON".to_string(),
                 )];
             }
+            oracle(c, obs)
+        },
+        &to_json,
+    );
+    pinned(ctx, &files);
+}
+
+fn pinned(ctx: &Ctx, files: &[String]) {
+    let thorough = !ctx.quick();
+    let calls = ctx.n(60, 1500);
+    let per_example = 1usize;
+    ctx.add_rule(&format!("pinned generator nodes: (a) every date node of a scenario pinned to each day of a grid ({} days: every day of a leap year, month ends of a common year, the last day of the two-digit-year window; thorough: every day of 2024-2036); (b) each string generator spec sampled on its own ({} x 200 values), one example kept per shape (length, blank / punctuation at each position where a scenario cuts with substr, each non-alphanumeric character, leading / trailing / double blank), each example pinned into each node of that spec, one node at a time; same pipeline and oracle", date_grid(thorough).len(), calls));
+    ctx.assume("a pinned value is one the node can produce (today's date on some day; a string the generator returned when sampled on its own), so it is a legitimate draw");
+    let to_json = |c: &ScenCase| serde_json::to_value(c).unwrap();
+    let grid = date_grid(thorough);
+    // all cut positions over all scenarios, and all string specs
+    let mut cuts = std::collections::BTreeSet::new();
+    let mut specs = std::collections::BTreeSet::new();
+    let mut scens: Vec<(String, Value)> = Vec::new();
+    for f in files {
+        let path = format!("{}/{}", SCENARIO_ROOT, f);
+        if let Some(v) = std::fs::read_to_string(&path)
+            .ok()
+            .and_then(|s| serde_json::from_str::<Value>(&s).ok())
+        {
+            cut_positions(&v, &mut cuts);
+            let mut nodes = Vec::new();
+            fake_nodes(&v, &mut Vec::new(), &mut nodes);
+            for (_, spec) in nodes {
+                if !spec.starts_with("[\"date\"") && !spec.starts_with("[\"uuid\"") {
+                    specs.insert(spec);
+                }
+            }
+            scens.push((f.clone(), v));
+        }
+    }
+    let specs: Vec<String> = specs.into_iter().collect();
+    // harvest in parallel (one shard per spec)
+    let harvested: std::sync::Mutex<std::collections::BTreeMap<String, Vec<(String, String)>>> =
+        Default::default();
+    ctx.run_shards("harvest", specs.len(), &|i, obs| {
+        let h = harvest(&specs[i], calls, &cuts);
+        obs.class(&format!("harvest:{}:{}-shapes", specs[i], h.len()));
+        harvested.lock().unwrap().insert(specs[i].clone(), h);
+    });
+    let harvested = harvested.into_inner().unwrap();
+    ctx.run_enumerated(
+        "pinned",
+        scens.len(),
+        &|sh| {
+            let (name, scen) = &scens[sh];
+            let mut nodes = Vec::new();
+            fake_nodes(scen, &mut Vec::new(), &mut nodes);
+            let mut v = Vec::new();
+            // (a) dates
+            let date_nodes: Vec<&(Vec<String>, String)> =
+                nodes.iter().filter(|(_, s)| s.starts_with("[\"date\"")).collect();
+            if !date_nodes.is_empty() {
+                for d in &grid {
+                    let mut sc = scen.clone();
+                    for (path, spec) in &date_nodes {
+                        let fmt = serde_json::from_str::<Value>(spec)
+                            .ok()
+                            .and_then(|a| a.get(1).and_then(|x| x.as_str().map(|s| s.to_string())))
+                            .unwrap_or("%Y-%m-%d".into());
+                        set_at(&mut sc, path, Value::String(d.format(&fmt).to_string()));
+                    }
+                    match plugin_generate(&sc) {
+                        Ok(g) => v.push(ScenCase {
+                            scenario: name.clone(),
+                            generated: g,
+                            origin: format!("pinned-date:{d}"),
+                        }),
+                        Err(e) => v.push(ScenCase {
+                            scenario: name.clone(),
+                            generated: json!({"__generate_failed__": e.text()}),
+                            origin: format!("pinned-date:{d}"),
+                        }),
+                    }
+                }
+            }
+            // (b) strings
+            for (path, spec) in &nodes {
+                if let Some(examples) = harvested.get(spec) {
+                    for (feature, ex) in examples {
+                        for _ in 0..per_example {
+                            let mut sc = scen.clone();
+                            set_at(&mut sc, path, Value::String(ex.clone()));
+                            match plugin_generate(&sc) {
+                                Ok(g) => v.push(ScenCase {
+                                    scenario: name.clone(),
+                                    generated: g,
+                                    origin: format!("pinned-string:{feature}"),
+                                }),
+                                Err(e) => v.push(ScenCase {
+                                    scenario: name.clone(),
+                                    generated: json!({"__generate_failed__": e.text()}),
+                                    origin: format!("pinned-string:{feature}"),
+                                }),
+                            }
+                        }
+                    }
+                }
+            }
+            v
+        },
+        &|c: &ScenCase, obs: &mut Obs| {
+            if let Some(e) = c.generated.get("__generate_failed__") {
+                return vec![viol(
+                    format!("C15|{}|generate-failed", c.scenario),
+                    format!("{} ({})", e, c.origin),
+                )];
+            }
+            obs.class(if c.origin.starts_with("pinned-date") { "pinned:date" } else { "pinned:string" });
             oracle(c, obs)
         },
         &to_json,
